@@ -256,8 +256,11 @@ def _tensor(ctx, p, rng):
             xt = [x.astype(np.int32), x.astype(np.int16), x.astype(int), x.copy()][style % 4]      # integer seeds of any width
         X = UTPM.init_tensor(d, xt)
         Y = PP.evaluate(algopy, [poly], X, style)
-        T1 = np.asarray(UTPM.extract_tensor(N, Y, as_full_matrix=False))
-        Hf = np.asarray(UTPM.extract_tensor(N, Y, as_full_matrix=True)) if d == 2 else None
+        # the flag in the spellings a caller produces: literals, the result of a NumPy comparison (numpy.bool_), 0 / 1
+        no = [False, np.False_, 0, np.int64(0), (np.arange(3) == 7)[0]][int(rng.integers(5))]
+        yes = [True, np.True_, 1, (np.arange(3) == 2)[2]][int(rng.integers(4))]
+        T1 = np.asarray(UTPM.extract_tensor(N, Y, as_full_matrix=no))
+        Hf = np.asarray(UTPM.extract_tensor(N, Y, as_full_matrix=yes)) if d == 2 else None
         T2 = np.asarray(UTPM.extract_tensor(N, Y, as_full_matrix=False))      # again: must not depend on earlier extractions
     except Exception as e:
         ctx.violation('tensor:raises:' + type(e).__name__, {'N': N, 'd': d, 'error': repr(e)[:200]}); return
